@@ -5,6 +5,8 @@ rejected as soon as one recorded field is corrupted or one recorded step is drop
   1. Trace_Parser  : a recorded parse with one token value / one argument count / the tree changed  -> rejected
   2. Trace_Formula : a recorded evaluation with the result changed                                   -> rejected
   3. Trace_Tokens  : a recorded tokenization with one token dropped                                  -> rejected
+  4. Trace_Local   : histories of the random workbook driver; a response changed, a set_cell_value of the history
+                     withheld from the driver's bookkeeping (the recorded constant keeps its old value)      -> rejected
 Each trace is also validated unmodified (accepted).  Exit 0 when every expectation holds.
 Development tool, not a registered check."""
 import copy
@@ -61,6 +63,40 @@ for x in e:
         x['res']['n'] += 1
 res = trace.validate(run, e, module='Trace_Formula')
 expect('Trace_Formula, every numeric result off by 1/d', [v for x, v, _ in res if x['res'].get('t') == 'num'], False)
+run.disagreements.clear()
+
+# 4. the random workbook driver: events as recorded / a response changed / one set step dropped from the event's constants
+from checks import wbdrive        # noqa: E402
+evs = []
+for seed in range(900, 960):
+    evs += [x for x in wbdrive.drive(seed, run.work, 'c04') if 'build_failed' not in x]
+clean = lambda es: [{k: x[k] for k in ('ast', 'sheet', 'cells', 'names', 'res', 'addr', 'text')} for x in es]
+res = trace.validate(run, clean(evs), module='Trace_Local', name='local-asis')
+expect('Trace_Local, driver events as they are', [v for _, v, _ in res], True)
+run.disagreements.clear()
+e = copy.deepcopy(evs)
+hit = [x for x in e if x['res'].get('t') == 'num']
+for x in hit:
+    x['res']['n'] += x['res']['d']                       # every numeric response off by one
+res = trace.validate(run, clean(hit), module='Trace_Local', name='local-res')
+expect('Trace_Local, numeric responses off by one', [v for _, v, _ in res if v != 'open'], False)
+run.disagreements.clear()
+# a set step withheld: the constant a formula reads keeps the value it had BEFORE the last set of the history
+e = []
+for x in copy.deepcopy(evs):
+    sets = [h for h in x['meta']['history'] if h[0] == 'set' and isinstance(h[2], dict) and h[2].get('t') == 'num']
+    if not sets:
+        continue
+    a, v = sets[-1][1], sets[-1][2]
+    for c in x['cells']:
+        if 'v' in c and f"{c['sheet']}!{wbdrive.S.col_letters(c['col'])}{c['row']}" == a and c['v'] == v:
+            c['v'] = {'t': 'num', 'n': v['n'] + 7 * v['d'], 'd': v['d']}
+            e.append(x)
+            break
+res = trace.validate(run, clean(e), module='Trace_Local', name='local-set')
+verd = [v for _, v, _ in res]
+print(f'      ({len(e)} events read a cell that the history had set; {sum(1 for v in verd if v not in ("ok", "open"))} rejected)')
+expect('Trace_Local, a set step withheld from the recorded constants', verd, False)
 import shutil
 shutil.rmtree(run.work, ignore_errors=True)
 print('selftest', 'ok' if ok else 'FAILED')
